@@ -30,6 +30,33 @@ protected:
     // no seekoff/seekpos: tellp() reports -1 like std::cout on a pipe or terminal
 };
 
+// a target that accepts `room` bytes and then fails (a full disk, a closed pipe)
+class FailBuf : public std::streambuf
+{
+public:
+    std::string data;
+    std::size_t room;
+    explicit FailBuf(std::size_t n) : room(n)
+    {
+    }
+
+protected:
+    std::streamsize xsputn(const char* s, std::streamsize n) override
+    {
+        std::streamsize k = 0;
+        while (k < n && data.size() < room)
+            data.push_back(s[k++]);
+        return k;
+    }
+    int_type overflow(int_type ch) override
+    {
+        if (ch == traits_type::eof() || data.size() >= room)
+            return traits_type::eof();
+        data.push_back(static_cast<char>(ch));
+        return ch;
+    }
+};
+
 static std::string handle(const std::vector<std::string>& f)
 {
     std::string app = nv::unhex(f.at(0)), about = nv::unhex(f.at(1));
@@ -179,6 +206,32 @@ static std::string handle(const std::vector<std::string>& f)
         p.usage(stateful);
         std::string t4 = stateful.str().substr(pre4.size());
 
+        // targets that fail part-way (silently, or by throwing because the caller asked the stream to): what did arrive
+        // is the beginning of the text, and the next request - to any stream - gives the whole text again
+        {
+            std::size_t step = t1.size() / 24 + 1;
+            for (std::size_t room = 0; room < t1.size(); room += step)
+                for (int throwing = 0; throwing < 2; throwing++)
+                {
+                    FailBuf fb(room);
+                    std::ostream failing(&fb);
+                    if (throwing)
+                        failing.exceptions(std::ios_base::badbit | std::ios_base::failbit);
+                    try
+                    {
+                        p.usage(failing);
+                    }
+                    catch (std::ios_base::failure&)
+                    {
+                    }
+                    if (t1.compare(0, fb.data.size(), fb.data) != 0)
+                        return "STREAMS-DIFFER:failing-target-got-other-text " + nv::hex(fb.data);
+                    std::stringstream again;
+                    p.usage(again);
+                    if (again.str() != t1)
+                        return "STREAMS-DIFFER:after-a-failed-target " + nv::hex(again.str());
+                }
+        }
         if (t2 != t1)
             return "STREAMS-DIFFER:prior-content " + nv::hex(t2);
         if (t4 != t1)
